@@ -17,9 +17,9 @@ PY34 = os.path.join(REPO, "py34")
 class Violation(Exception):
     """Raised (or flagged) by an oracle: the property is broken on this path."""
 
-    def __init__(self, kind, **sig):
-        Exception.__init__(self, kind, sig)
-        self.kind = kind
+    def __init__(self, _kind, **sig):
+        Exception.__init__(self, _kind, sig)
+        self.kind = _kind
         self.sig = sig
 
 
@@ -160,11 +160,11 @@ class Draws:
     def _ignore(self):
         raise HarnessError("assumption failed under concrete replay")
 
-    def flag(self, cond, kind, **sig):
+    def flag(self, cond, _kind, **sig):
         """record a violation if cond, keep running the path (so that later oracles on
         the same path are not masked by an earlier, possibly known, finding)"""
         if cond:
-            self.flags.append(Violation(kind, **sig))
+            self.flags.append(Violation(_kind, **sig))
             return True
         return False
 
